@@ -156,15 +156,18 @@ var c16Defs = []struct {
 	// bystanders: present (complete) in the cache while a primary version is worked on
 	{"example.com/foo@v0", "v0.0.11", []string{"a.cue", "e.cue"}, ""},
 	{"example.com/foobar@v0", "v0.0.1", []string{"a.cue", "f.cue"}, ""},
-	// probe pair for the `.tmp-` sibling cleanup: "v0.0.1-a.tmp-x" is a valid version whose
+	// probes for the `.tmp-` sibling cleanup: "v0.0.1-a.tmp-x" is a valid version whose
 	// directory name starts with the cleanup prefix of "v0.0.1-a"
 	{"example.com/q@v0", "v0.0.1-a", []string{"a.cue"}, ""},
 	{"example.com/q@v0", "v0.0.1-a.tmp-x", []string{"a.cue", "g.cue"}, ""},
+	// … and "v0.0.1-a.tmp-1": also a valid version, of the form `.tmp-<digits>` the legacy
+	// temporary directories had
+	{"example.com/q@v0", "v0.0.1-a.tmp-1", []string{"a.cue", "h.cue"}, ""},
 }
 
 const (
 	c16NPrimary = 3 // modules 0..2: subject of every phase
-	c16NRegular = 5 // modules 0..4: may share a cache; 5 and 6 are the probe pair
+	c16NRegular = 5 // modules 0..4: may share a cache; 5, 6 and 7 are the `.tmp-` probes
 )
 
 func c16Modules(seed uint64) []*c16Mod {
@@ -2218,8 +2221,9 @@ func c16ParentMain(c *Cfg) {
 	// P8: the `.tmp-` sibling cleanup against a version whose name extends another version's
 	// name by ".tmp-…" (both valid semantic versions).
 	if want("P8") {
-		bufs := make([]*c16Buf, 2)
-		c16Pool(2, 2, func(i int) { bufs[i] = p.p8Case(env, 5+i, 6-i) })
+		pairs := [][2]int{{6, 5}, {5, 6}, {7, 5}, {5, 7}}
+		bufs := make([]*c16Buf, len(pairs))
+		c16Pool(len(pairs), 4, func(i int) { bufs[i] = p.p8Case(env, pairs[i][0], pairs[i][1]) })
 		p.flush(bufs)
 	}
 
@@ -3032,11 +3036,9 @@ func (p *c16Parent) p8Case(env *c16Env, first, second int) *c16Buf {
 	okEq := func(r c16Result) bool { return r.Ok && r.Verdict == "equal" }
 	b.Direct(okEq(rs[0]) && okEq(rs[1]) && okEq(rs[2]) && okEq(rs[4]), "clean-fetch-failed",
 		fmt.Sprintf("fetching %s then %s into one cache failed", mf.MV, ms.MV), cs.replay)
-	// narrow class: only the pair (v, v + ".tmp-" + x) can be hit by the sibling cleanup
+	// (v0.0.1-a.tmp-x was removed by the sibling cleanup before f81b1df, v0.0.1-a.tmp-1 before
+	// 01b58aa; a relapse is a plain violation)
 	class := "cross-version-damaged"
-	if strings.HasPrefix(mf.MV.Version(), ms.MV.Version()+".tmp-") {
-		class = "tmp-prefix-version"
-	}
 	snap := cs.snap(mf)
 	b.Direct(okEq(rs[3]), class,
 		fmt.Sprintf("%s was fetched completely and served; after the first Fetch of %s in the same cache FetchFromCache(%s) answers: ok=%v %s %s (state %s)",
